@@ -145,6 +145,16 @@ class Namespace(MutableMapping):
         else: # refers to variable outside the function being examined
             self.names[name] = Name(name)
 
+    def owner(self, name):
+        """The namespace a read of ``name`` refers to: the closest enclosing
+        one that binds it."""
+        ns = self.nonlocals.get(name, self)
+        while ns is not None:
+            if name in ns.names:
+                return ns
+            ns = ns.parent
+        return self
+
     def is_immutable_value(self, name):
         ns = self.nonlocals.get(name, self)
         return name in ns.immutables
@@ -275,9 +285,15 @@ class CallListerVisitor(ast.NodeVisitor):
             self.namespace.add_nonlocal(name)
 
     def visit_Name(self, node):
-        immutable = self.namespace.is_immutable_value(node.id)
+        if isinstance(node.ctx, ast.Store):
+            ns = self.namespace
+        else:
+            # reading a variable of an enclosing function from a nested one
+            # exposes the enclosing function's object
+            ns = self.namespace.owner(node.id)
+        immutable = ns.is_immutable_value(node.id)
         if not (immutable and isinstance(node.ctx, ast.Load)):
-            self.namespace[node.id] = Unknown(node)
+            ns[node.id] = Unknown(node)
 
     def visit_Attribute(self, node):
         pass
@@ -316,10 +332,28 @@ class CallListerVisitor(ast.NodeVisitor):
             use_varargs, use_varkwargs,
             hide_args, hide_kwargs))
 
+    def expose_nested_Call(self, node):
+        # the nested function may run before calls that come later in the
+        # enclosing function: what this call does to the enclosing function's
+        # arguments counts from here on, not only once everything else has
+        # been looked at
+        instance = node.func
+        while isinstance(instance, ast.Attribute):
+            instance = instance.value
+        if instance is not node.func and isinstance(instance, ast.Name):
+            marker = self.namespace.get(instance.id, None)
+            if isinstance(marker, Arg):
+                marker.tainted = node
+        for arg in node.args + [
+                kw.value for kw in node.keywords if kw.arg is not None]:
+            if isinstance(arg, ast.Name):
+                self.visit_Name(arg)
+
     def visit_Call(self, node):
         if self.namespace.parent is None:
             self.process_Call(node)
         else:
+            self.expose_nested_Call(node)
             self.to_revisit.append((node, self.namespace))
 
     def __iter__(self):
